@@ -10,7 +10,7 @@ func TestTmpCount(t *testing.T) {
 	n := 0
 	var first Case
 	t0 := time.Now()
-	core1(func(c Case) bool { n++; if n == 1000 { first = c }; return true })
+	core1(false, func(c Case) bool { n++; if n == 1000 { first = c }; return true })
 	fmt.Println("core1", n, time.Since(t0))
 	m := 0
 	core2(func(c Case) bool { m++; return true })
